@@ -1,0 +1,23 @@
+//go:build verif
+
+package main
+
+// Contracts for the verification machinery in /verif. This file holds comments only and is compiled
+// only with the build tag `verif`; it changes nothing in a normal build.
+// Grammar: /verif/DESIGN.md section 3.
+
+// ---------------------------------------------------------------------------------------------
+// Boundary helpers whose effects lie outside the state the properties talk about (plugins, push,
+// statistics, cluster RPC). Their contracts are *trusted* (listed as assumptions in every evidence file
+// that uses them): they modify no Topic, Session or perUserData state.
+// ---------------------------------------------------------------------------------------------
+
+//@ func pluginMessage(data *MsgServerData, action int)
+//@   trusted
+//@ func pluginSubscription(sub *types.Subscription, action int)
+//@   trusted
+//@ func pluginTopic(topic *Topic, action int)
+//@   trusted
+//@ func pluginAccount(user *types.User, action int)
+//@   trusted
+
